@@ -268,6 +268,13 @@ def find_path(src, path):
                     ok = True
             if ok:
                 cands.append(it)
+        if len(cands) > 1 and depth + 1 < len(path):
+            # several blocks with the same header (e.g. two `impl T { .. }`): the one that directly contains the next element
+            nw = [t.text for t in lex(path[depth + 1])]
+            keep = [c for c in cands if c.body_open is not None and
+                    any(_subseq_at(it.header_tokens(), nw) for it in items_in(toks, c.body_open + 1, c.body_close))]
+            if len(keep) == 1:
+                cands = keep
         if len(cands) != 1:
             raise LookupError("path element %r matches %d items (need exactly 1)" % (elem, len(cands)))
         item = cands[0]
